@@ -132,3 +132,51 @@ def _parse_cut(c):
         "max_table_entry_cnt == file_table_size // 24 and file_table_size == len(stream.content)",
     )
     lp.modifies("stream.cur").modifies("file_entries", ("list", "opaque"))
+
+
+# ---------------------------------------------------------------------------------------------------------------- C14 (Roland half)
+# SafeListConstruct._parse (smpl_extract/util/constructs.py) is the list every Roland directory level is read with: one element that
+# fails to parse (UnicodeDecodeError / ConstructError / KeyError / IndexError) is left out, every other element is kept, in order.
+# Proved per list length (count = 1, 2, 3): the element parser is abstract - it fails on an arbitrary subset of the indices.
+def _mk_safelist(n):
+    SL = "smpl_extract.util.constructs:"
+
+    @contract(f"construct:evaluate#count={n}", abstract=True, assumed=True, note=f"the declared element count evaluates to {n} (shape parameter of the proof)")
+    def _ev(c):
+        c.param("expr", ("drop",))
+        c.param("context", ("obj", "ParseContext", {"_index": "int"}))
+        c.returns(("const", n))
+
+    @contract(f"construct:element._parsereport#abstract[{n}]", abstract=True, assumed=True,
+              note="the element parser: for the index found in context._index it either fails with one of the four handled exception classes "
+                   "or yields that element's value; which indices fail is arbitrary")
+    def _pr(c):
+        c.param("stream", ("drop",))
+        c.param("context", ("obj", "ParseContext", {"_index": "int"}))
+        c.param("path", ("drop",))
+        c.returns("int")
+        for exc in ("ConstructError", "KeyError", "IndexError", "UnicodeDecodeError"):
+            c.raises(exc, "uf_bool('element_is_damaged', context._index)")
+        c.ensures("not uf_bool('element_is_damaged', context._index) and result == uf_int('element_value', context._index)")
+        c.modifies()
+
+    @contract(SL + f"SafeListConstruct._parse[count={n}]", source_key=SL + "SafeListConstruct._parse", props=["C14", "C13"], proof_only=True)
+    def _sl(c):
+        c.self_obj(("self", SL + "SafeListConstruct", {"count": ("drop",), "subcon": ("drop",), "predicate": ("const", None)}))
+        c.param("stream", ("drop",))
+        c.param("context", ("obj", "ParseContext", {"_index": "int"}))
+        c.param("path", ("drop",))
+        c.abstract_calls = {"evaluate": f"construct:evaluate#count={n}", "self.subcon._parsereport": f"construct:element._parsereport#abstract[{n}]"}
+        c.define("bad", ["i"], "uf_bool('element_is_damaged', i)")
+        c.define("val", ["i"], "uf_int('element_value', i)")
+        good = " + ".join(f"ite(bad({i}), 0, 1)" for i in range(n))
+        c.ensures(f"len(result) == {good}", "exactly-the-undamaged-elements-are-kept")
+        for i in range(n):
+            before = " + ".join([f"ite(bad({j}), 0, 1)" for j in range(i)]) or "0"
+            c.ensures(f"implies(not bad({i}), result[{before}] == val({i}))", f"undamaged-element-{i}-is-kept-in-its-place-whatever-the-others-are")
+        c.modifies("context._index")
+    return _sl
+
+
+for _n in (1, 2, 3):
+    _mk_safelist(_n)
